@@ -340,6 +340,9 @@ mod sx {
         "https://x.com/other1three",
         "https://x.com/rex1/1gg", "https://x.com/rex2/1gg", "https://x.com/rex3/1gg", "https://x.com/rex4/1gg", "https://x.com/rex5/1gg",
         "https://x.com/rex6/1gg", "https://x.com/rex7/1gg", "https://x.com/rex8/1gg", "https://x.com/rex9/1gg", "https://x.com/rex10/1gg",
+        // requests that visit two / three regex rules at once (26, 27): only the last pattern of the
+        // path matches, the buckets of the others are visited on the way
+        "https://x.com/rex1/rex2/1hh/rex2/2gg", "https://x.com/rex3/rex4/rex5/1hh/rex5/2gg",
     ];
 
     /// Operations of a preamble: executed by the controlling thread (no scheduling points) on the
@@ -511,6 +514,14 @@ mod sx {
             v.push((format!("h:{}|2x2", pn), vec![vec![Check(11), Check(5)], vec![Check(5), Check(11)]], pre.clone()));
             v.push((format!("h:{}|2x3", pn), vec![vec![Check(12), Check(13), Check(5)], vec![Check(14), Check(15), Check(11)]], pre));
         }
+        // cold cache under the default policy (whatever is compiled stays): one thread's request visits
+        // several regex rules nobody has used yet while the other thread uses one of them; afterwards
+        // both ask for the others
+        let cold = vec![P::KeepCompiled];
+        v.push(("h:cold|two-regexes".to_string(), vec![vec![Check(26), Check(17), Check(16)], vec![Check(16), Check(17)]], cold.clone()));
+        v.push(("h:cold|two-regexes-b".to_string(), vec![vec![Check(26), Check(16)], vec![Check(17), Check(16), Check(17)]], cold.clone()));
+        v.push(("h:cold|three-regexes".to_string(), vec![vec![Check(27), Check(19), Check(20)], vec![Check(18), Check(20), Check(19)]], cold.clone()));
+        v.push(("h:cold|three-regexes-b".to_string(), vec![vec![Check(27), Check(18), Check(20)], vec![Check(19), Check(20), Check(18)]], cold));
         v
     }
 
@@ -842,7 +853,7 @@ fn sync_main(tier: vh::Tier) -> i32 {
         if name.starts_with("h:") {
             // history plans: one exploration at the highest bound (it contains the lower ones);
             // the 2x2 thread plans in the thorough tier only
-            if name.contains("|2x1") || tier == vh::Tier::Thorough {
+            if name.contains("|2x1") || name.starts_with("h:cold|") || tier == vh::Tier::Thorough {
                 // (2x3 after a preamble: bound 2 - at bound 3 the 50 preambles alone exceed the tier's time)
                 jobs.push((pi, if tier == vh::Tier::Quick || name.ends_with("|2x3") { 2 } else { 3 }));
             }
